@@ -8,6 +8,7 @@ CONSTANTS
   Toggles = TRUE
   DefaultMax = 2
   LegacyPullZero = TRUE
+  LegacyTrimRaw = FALSE
   GenDepth = 0
   Cover = FALSE
 INVARIANT ImplRefinesReq
